@@ -1,6 +1,8 @@
 """C04 - strokes are rendered into equivalent filled outlines drawn above the fill."""
 from __future__ import annotations
 
+from hypothesis import strategies as st
+
 from vlib.run import Result, Sub
 from vlib.gen import docs
 from vlib.props import rendercmp
@@ -17,7 +19,7 @@ RULE = (
     "miter joins) + tau from the path, or only near segments lying wholly in off-intervals; otherwise unknown and "
     "skipped; tau = 0.25 user units for curved paths (Skia's stroker resolution) + 0.1% of the viewBox); differential "
     "render of source and converted document comparing paint stack (stroke paint directly above the fill) and "
-    "composited colour (opacities) at mutually trusted points. Non-trivial = the source has a stroked shape (own or inherited stroke), >= 30 mutually trusted points and >= 10 of them covered; distinct = distinct source text."
+    "composited colour (opacities) at mutually trusted points. Sub-check 'api': svg_pathops.stroke() called directly with the same commands as tuple / list / generator / one-shot iterator must return the same outline. Non-trivial = the source has a stroked shape (own or inherited stroke), >= 30 mutually trusted points and >= 10 of them covered; distinct = distinct source text."
 )
 ASSUMPTIONS = [
     "vlib/refsvg/stroke3.py three-valued stroke model (self-tested); zero-length subpaths (dots) are unknown zones",
@@ -43,6 +45,58 @@ def check_doc(case) -> Result:
     return r
 
 
+# ------------------------------------------------------------------ the stroker as a public function
+
+
+@st.composite
+def api_case(draw):
+    n = draw(st.integers(1, 4))
+    x, y = draw(st.integers(0, 40)), draw(st.integers(0, 40))
+    cmds = [["M", [x, y]]]
+    for _ in range(n):
+        k = draw(st.sampled_from("LLLQC"))
+        pts = [draw(st.integers(-20, 120)) for _ in range({"L": 2, "Q": 4, "C": 6}[k])]
+        cmds.append([k, pts])
+    if draw(st.booleans()):
+        cmds.append(["Z", []])
+    dash = draw(st.sampled_from([[], [], [10, 5], [4, 4, 1], [0, 8]]))
+    return {
+        "cmds": cmds, "cap": draw(st.sampled_from(["butt", "round", "square"])), "join": draw(st.sampled_from(["miter", "round", "bevel"])),
+        "width": draw(st.sampled_from([2, 4.5, 10])), "miterlimit": draw(st.sampled_from([1, 4, 10])), "dash": dash,
+        "offset": draw(st.sampled_from([0, 3, -2.5])) if dash else 0,
+        "container": draw(st.sampled_from(["list", "generator", "iterator", "map"])),
+    }
+
+
+def check_api(case) -> Result:
+    """svg_pathops.stroke accepts any iterable of commands (SVGCommandSeq = Iterable); what it returns must not depend on
+    whether the commands arrive as a tuple, a list, a generator or a one-shot iterator (the other svg_pathops
+    functions return generators, so chaining them hands stroke exactly that)."""
+    from picosvg import svg_pathops
+
+    r = Result()
+    cmds = tuple((c, tuple(float(v) for v in a)) for c, a in case["cmds"])
+    args = (case["cap"], case["join"], float(case["width"]), float(case["miterlimit"]), 0.1)
+    kw = dict(dash_array=tuple(float(v) for v in case["dash"]), dash_offset=float(case["offset"]))
+    r.classes = ("container:" + case["container"], "dashed" if case["dash"] else "solid")
+    try:
+        ref = tuple(svg_pathops.stroke(cmds, *args, **kw))
+    except Exception as e:
+        r.rejected = f"stroke:{type(e).__name__}"
+        return r
+    feed = {"list": lambda: list(cmds), "generator": lambda: (c for c in cmds), "iterator": lambda: iter(cmds), "map": lambda: map(lambda c: c, cmds)}[case["container"]]()
+    try:
+        got = tuple(svg_pathops.stroke(feed, *args, **kw))
+    except Exception as e:
+        r.bad("api-container-raises", f"stroke() of a {case['container']} of commands raised {type(e).__name__}: {e}; the same commands as a tuple are stroked fine; cmds={cmds}")
+        return r
+    if got != ref:
+        r.bad("api-container-differs", f"stroke() of the same commands given as a {case['container']} returns another outline than for a tuple: {got[:6]}... vs {ref[:6]}...; cmds={cmds} params={args} {kw}")
+    r.nontrivial = len(ref) >= 4 and case["container"] != "list"
+    return r
+
+
 SUBCHECKS = {
     "doc": Sub("doc", check_doc, strategy=lambda ctx: docs.document(CFG, hook=docs.stroke_hook), examples={"quick": 400, "thorough": 4000}, describe=lambda c: c["svg"]),
+    "api": Sub("api", check_api, strategy=lambda ctx: api_case(), examples={"quick": 150, "thorough": 2000}),
 }
